@@ -46,6 +46,61 @@ def func_digest(node) -> str:
     return hashlib.sha1(ast.dump(node).encode()).hexdigest()[:12]
 
 
+def stmt_fingerprints(fn) -> dict:
+    """Multiset of statement fingerprints of a function (compound statements by their header only), used to measure
+    how much of a function was rewritten since the confirmed baseline."""
+    import collections
+    import hashlib
+
+    out = collections.Counter()
+    for n in ast.walk(fn):
+        if not isinstance(n, ast.stmt) or n is fn or (isinstance(n, ast.Expr) and isinstance(n.value, ast.Constant)):
+            continue
+        if isinstance(n, (ast.If, ast.While)):
+            key = "if " + ast.dump(n.test)
+        elif isinstance(n, ast.For):
+            key = "for " + ast.dump(n.target) + ast.dump(n.iter)
+        elif isinstance(n, (ast.FunctionDef, ast.AsyncFunctionDef, ast.ClassDef)):
+            key = "def " + n.name
+        elif isinstance(n, (ast.Try, ast.With)):
+            key = type(n).__name__
+        else:
+            key = ast.dump(n)
+        out[hashlib.md5(key.encode()).hexdigest()[:8]] += 1
+    return dict(out)
+
+
+_STMTS = os.path.join(os.path.dirname(os.path.abspath(__file__)), "baseline_stmts.json")
+
+
+def edit_sizes(prog) -> dict:
+    """qualified name -> (statements removed + added since the baseline, statements in the baseline version);
+    functions that did not exist in the baseline get (None, 0)."""
+    import collections
+    import json
+
+    with open(_STMTS) as fh:
+        base = json.load(fh)
+    out = {}
+    for m in prog.modules.values():
+        tree = ast.parse(m.source)
+        for n in tree.body:
+            items = []
+            if isinstance(n, (ast.FunctionDef, ast.AsyncFunctionDef)):
+                items.append((f"{m.name}:{n.name}", n))
+            elif isinstance(n, ast.ClassDef):
+                items += [(f"{m.name}:{n.name}.{c.name}", c) for c in n.body if isinstance(c, (ast.FunctionDef, ast.AsyncFunctionDef))]
+            for q, node in items:
+                b = base.get(q)
+                span = (m.rel, node.lineno, getattr(node, "end_lineno", node.lineno))
+                if b is None:
+                    out[q] = (None, 0, span)
+                    continue
+                cb, cc = collections.Counter(b), collections.Counter(stmt_fingerprints(node))
+                out[q] = (sum((cb - cc).values()) + sum((cc - cb).values()), sum(cb.values()), span)
+    return out
+
+
 def baseline_functions() -> dict:
     """Qualified name -> digest of the functions of the tree on which the rule instances were confirmed.  The rules
     anchor on these names, so they are never inlined; only helpers introduced later are, and the statement-level
